@@ -19,6 +19,7 @@ type KeyState struct {
 	Z        map[string]float64 `json:"z,omitempty"`
 	Deadline int64              `json:"deadline"` // unix ms, 0 none, -2 absent
 	Note     string             `json:"note,omitempty"`
+	Hidden   int                `json:"hidden,omitempty"` // sorted-set members not returned by a full score range (NaN scores)
 }
 
 // Doer runs one command and returns the parsed reply plus a panic text (empty if none).
@@ -94,6 +95,12 @@ func Observe(do Doer, key string) KeyState {
 		ks.Z = map[string]float64{}
 		for _, pr := range z {
 			ks.Z[pr.M] = pr.S
+		}
+		// Members with a NaN score are invisible to a score range; ZCARD tells whether there are any.
+		if cv, p := do("ZCARD", key); p == "" {
+			if n, ok := cv.AsInt(); ok && int(n) != len(ks.Z) {
+				ks.Hidden = int(n) - len(ks.Z)
+			}
 		}
 	}
 	dv, p := do("PEXPIRETIME", key)
@@ -340,6 +347,9 @@ func CompareKey(key string, want, got KeyState) *Diff {
 			}
 		}
 	case TZSet:
+		if got.Hidden != 0 {
+			return &Diff{Key: key, Part: "value", Want: want, Got: got, Extra: "sorted set holds members that a full score range does not return (NaN score)"}
+		}
 		if len(want.Z) != len(got.Z) {
 			return &Diff{Key: key, Part: "value", Want: want, Got: got}
 		}
